@@ -57,7 +57,7 @@ static bool wr(int fd, const void * p, size_t n) { const char * c = (const char 
 static bool rdn(int fd, void * p, size_t n) { char * c = (char *)p; while (n) { ssize_t k = read(fd, c, n); if (k <= 0) return false; c += k; n -= (size_t)k; } return true; }
 
 static Bytes blob_of(const Case & c, bool text) {
-  Bytes b; b.insert(b.end(), { 'M', 'V', 'C', '1', (uint8_t)g_prop, (uint8_t)((text ? 1 : 0) | (g_tier << 1)), 0, 0 });
+  Bytes b; b.insert(b.end(), { 'M', 'V', 'C', '1', (uint8_t)g_prop, (uint8_t)((text ? 1 : 0) | (g_tier << 1)), 1 /* format generation */, 0 });
   auto put32 = [&](uint32_t v) { for (int i = 0; i < 4; i++) b.push_back((uint8_t)(v >> (8 * i))); };
   put32(c.seed); put32((uint32_t)c.cfg.size()); put32((uint32_t)c.prog.size()); put32((uint32_t)c.sched.size());
   b.insert(b.end(), c.cfg.begin(), c.cfg.end()); b.insert(b.end(), c.prog.begin(), c.prog.end()); b.insert(b.end(), c.sched.begin(), c.sched.end());
